@@ -240,12 +240,14 @@ class Interp:
         return None
 
     # -- attribute read -----------------------------------------------------------------
-    def get_attr(self, st: State, base, name: str, node=None):
+    def get_attr(self, st: State, base, name: str, node=None, tree=None):
+        if tree is None:
+            tree = []
         key = (base, name)
         if key in st.ext:
             return st.ext[key]
-        if base[0] == "cond":
-            return mk_cond(base[1], self.get_attr(st, base[2], name, node), self.get_attr(st, base[3], name, node))
+        if base[0] == "cond" and base not in self.types:
+            return mk_cond(base[1], self.get_attr(st, base[2], name, node, tree), self.get_attr(st, base[3], name, node, tree))
         if base[0] == "class":
             cls = self.facts.cls(base[1])
             m = cls.find_method(name)
@@ -281,7 +283,7 @@ class Interp:
             m = cls.find_method(name)
             if m is not None:
                 if m.is_property:
-                    return self.call_function(st, m, [base], {}, node)
+                    return self.call_function(st, m, [base], {}, node, tree)
                 if m.is_static:
                     return ("func", m.qualname)
                 if m.is_classmethod:
@@ -346,7 +348,7 @@ class Interp:
 
     def ev_Attribute(self, st, n, tree):
         base = self.ev(st, n.value, tree)
-        return self.get_attr(st, base, n.attr, n)
+        return self.get_attr(st, base, n.attr, n, tree)
 
     def ev_Tuple(self, st, n, tree):
         return ("tuple", tuple(self.ev(st, e, tree) for e in n.elts))
@@ -633,6 +635,7 @@ class Interp:
         if k == "extname":
             nm = f[1]
             if nm in ("typing.cast", "typing_extensions.cast") and len(args) == 2:
+                self._note_cast(n, args[1])
                 return args[1]
             if nm in ("collections.deque",) and not args:
                 return self.new_list([], n, tree)
@@ -670,6 +673,7 @@ class Interp:
             ents += [(const(k), v) for k, v in kwargs.items() if k != "**"]
             return self.new_dict(ents, n, tree)
         if name == "cast" and len(args) == 2:
+            self._note_cast(n, args[1])
             return args[1]
         if name == "deque":
             return self.new_list([("s", a) for a in args], n, tree)
@@ -682,6 +686,14 @@ class Interp:
         if name == "next":
             tree.append(("extcall", "next", tuple(args), line))
         return ("call", name, tuple(args), tuple(sorted(kwargs.items())))
+
+    def _note_cast(self, n, term) -> None:
+        if isinstance(n, ast.Call) and n.args and isinstance(term, tuple) and term[0] not in ("const", "ref"):
+            act = self.stack[-1]
+            if act.fi is not None:
+                c = self.facts.annotation_class(act.fi.module, n.args[0])
+                if c is not None and not c.is_typeddict:
+                    self.types.setdefault(term, c)
 
     def instantiate(self, st, cls: ClassInfo, args, kwargs, n, tree):
         if cls.is_typeddict or any(c.is_typeddict for c in cls.mro()):
@@ -758,6 +770,10 @@ class Interp:
         if self.is_generator(fi):
             return self.alloc(HGen(q, sub, self.origin(n)))
         tree.append(("call", q, sub, line, act.id))
+        if isinstance(rv, tuple) and rv[0] not in ("const", "ref") and fi.node.returns is not None:
+            c = self.facts.annotation_class(fi.module, fi.node.returns)
+            if c is not None and not c.is_typeddict:
+                self.types.setdefault(rv, c)
         return rv
 
     def _eval_default(self, fi: FuncInfo, d: ast.expr):
@@ -972,7 +988,7 @@ class Interp:
         if isinstance(tgt, ast.Name):
             cur = self.lookup_name(st, tgt.id, tgt)
         elif isinstance(tgt, ast.Attribute):
-            cur = self.get_attr(st, self.ev(st, tgt.value, tree), tgt.attr, tgt)
+            cur = self.get_attr(st, self.ev(st, tgt.value, tree), tgt.attr, tgt, tree)
         else:
             cur = self.ev(st, tgt, tree)
         o = self.obj(cur)
